@@ -50,7 +50,7 @@ func Table() map[string]*Property {
 			"derive.finder.Visit", "derive.getInputTypes", "derive.newCall", "derive.newFileInfos"}},
 			{Layer: "D", Pkg: "main", Ghost: mainGhost, Funcs: []string{"main.main"}}},
 		Assumptions: []string{
-			"A-int; Go maps and slices are modelled as values (no aliasing between distinct map/slice variables)",
+			"A-int; Go maps and slices are modelled as values (no aliasing between distinct map/slice variables); guarded since round 12 by the argument-ownership obligations: an element write to a map/slice parameter needs 'mutates-arg', and an argument a callee mutates must be made by the caller (aliases created by append sharing a backing array, or by storing one map in two fields, are still not modelled)",
 			"go/format's output for an AST is 'the gofmt formatting' (Format is uninterpreted); comment placement is go/printer's business",
 			"Generator.Add returns the registered name unless the generator was built with -autoname/-dedup (checked per plugin at Layer G: Add returns SetFuncName's result; SetFuncName's no-flags clause is C11's)",
 			"termination is not verified",
@@ -288,7 +288,10 @@ func Table() map[string]*Property {
 		Groups: []Group{
 			{Layer: "D", Pkg: "derive", Funcs: []string{"derive.typesMap.nameOf"}, DropAxioms: []string{"EqIsEquivalence"}},
 			{Layer: "D", Pkg: "derive", Funcs: []string{"derive.pkg.Done", "derive.printer.WriteTo"}},
-			{Layer: "D", Pkg: "derive", Ghost: fsGhost, Funcs: []string{"derive.union", "derive.sortPlugins"}},
+			{Layer: "D", Pkg: "derive", Ghost: fsGhost, Funcs: []string{"derive.union", "derive.sortPlugins",
+				// nothing carries over from one package of an invocation to the next: generatePackage's frame names no field of the
+				// program object, and the maps newPackage fills in place (union) are made by newPackage itself (argument ownership)
+				"derive.newPackage", "derive.program.generatePackage", "derive.program.Generate"}},
 		},
 		Extra: func(ctx *Ctx) ([]driver.ObResult, error) {
 			return nondetSources(ctx, map[string]bool{"derive.union": true, "derive.pkg.Done": true, "derive.printer.WriteTo": true, "derive.typesMap.nameOf": true}), nil
@@ -298,6 +301,7 @@ func Table() map[string]*Property {
 			"nameOf's clause needs assignability to be symmetric and transitive on the table, which it is not when named and unnamed types are mutually assignable: the axiom EqIsEquivalence (assumed under C11, whose quantifier excludes such types) is NOT assumed here; the obligation fails and is a known finding with a witness that reproduces on the real binary",
 			"NOT decided: determinism of go/packages, go/types, go/format and the order of directory listings (newFileInfos); that plugins register one alias per import path (printer.NewImport) is an assumption; independence of how a package is addressed (relative path, pattern, import path) goes through the loader",
 			"by A-det (Go semantics): code without these sources is a deterministic function of its inputs",
+			"state in objects that outlive a package (the program object): generatePackage's frame names no field of it (frame obligations of newPackage / generatePackage / program.Generate), and the maps newPackage fills in place are made by newPackage itself (argument-ownership obligations: union declares mutates-arg); plugin objects (Plugin.New is called per package) are not analysed beyond the package-level-variable scan",
 		},
 		Trusted: []string{"sort.Strings / sort.Slice: rearrangement without inversions that keeps distinct elements distinct; the sorted arrangement of distinct strings is unique (L-sorted)", "gvc VC generator; SMT solvers; go/ast, go/types"},
 		Note:    "frame scan over all generator packages plus order-independence contracts for the map-range loops",
